@@ -269,7 +269,13 @@ def run_dump(spec, acc):
                         kept += 1
                     else:
                         skipped += 1
-            dec.close()
+            if c % 4 == 3:
+                # the application drops the decoder without closing it (the last reference goes away): what it dumped is in the
+                # file all the same once the object is gone
+                acc.count("dump_sessions_ended_by_dropping_the_decoder")
+                del dec
+            else:
+                dec.close()
             # the returned objects are the caller's: dumping them must not have changed them
             for r, proj, js in returned:
                 if project.msg_proj(r) != proj or r.to_json() != js:
